@@ -11,9 +11,13 @@ LEVEL_TEXT = ("Proved in Coq for the DAG-CBOR/CBOR decoder model (all configurat
               "error (the out-of-fuel outcome is unreachable; every Go panic site of the modelled code is an explicit error branch), the "
               "accepted value is within MaxDepth, and the allocation ledger cost(v) (declared lengths + per-entry costs + content "
               "lengths, constants regenerated from unmarshal.go) is within AllocationBudget. Partial: the other entry points (DAG-JSON, "
-              "JSON, raw decoders; typed assemblers of bindnode and generated code; path parsing; selector compile/walk) and the "
+              "JSON, raw decoders; typed assemblers of bindnode and generated code; path parsing) and the "
               "real allocation volume are exercised on the real code on every run (recover()-wrapped, runtime.MemStats) rather than "
-              "proved; selector compile/walk totality is covered with the traversal model (C07/C15).")
+              "proved. Selectors: proved for the traversal model (Trav/Selector.v, Walk.v) that compilation ends in a selector or an "
+              "error for every value and that the walk of any selector over any cycle-free graph with the explicit fuel walk_fuel "
+              "never panics and never runs out of fuel (C10_compile_total, C10_walk_total); compile-time allocation of ExploreRange is "
+              "refuted as unbounded (C10_compile_range_alloc_refuted); the model is tied to selector.CompileSelector / WalkAdv / "
+              "WalkMatching by the c10sel run (mutated declarations, extreme integers, degenerate recursion).")
 LEVEL_NOTE = ("Trusted: Coq kernel, extraction, gotrans, Go harness. Partial: real allocation is measured (TotalAlloc) against "
               "128*budget + 256*len + 1 MiB, not proved; typed assemblers and JSON decoders are only run, not modelled here.")
 TRUSTED = ["refmt v0.90 CBOR tokenizer and go-cid: hand-modelled; tied by correspondence only",
@@ -34,3 +38,86 @@ def classify(fs):
         t = fs[3].split(":")[0]
         return "dec:%s:%s:%s" % (fs[2], t, fs[-1].split("|")[0])
     return fs[1]
+
+
+# ---------------------------------------------------------------------------- selector clause (traversal cluster)
+SEL_COUNTS = {"quick": 1200, "thorough": 60000}
+
+
+def extra(ctx):
+    """Selector compilation and selector walks (harness/cmd/c10sel): declarations from the grammar generator, their
+    mutations, extreme integers, degenerate recursion; every declaration that compiles is walked (WalkAdv and
+    WalkMatching, recover()-wrapped) over generated graphs.  The extracted traversal model (cluster trav, driver
+    trav_driver) predicts compile class, walk class and visit/load counts; the oracle demands a result or an error."""
+    import os, subprocess
+    from vlib import core
+    from vlib.props import c07 as trav
+    name = "selectors: compile + WalkAdv/WalkMatching of generated declarations end in a result or an error, as the traversal model predicts"
+    with core.Lock():
+        hok, hlog = core.build_harness(["c10sel"])
+        mok, mmsg = core.build_model(trav.CLUSTER, trav.EXTRACT_V, [trav.DRIVER], trav.MODEL_DEPS)
+    if not hok:
+        return [{"name": name, "ok": False, "info": "c10sel does not build: " + hlog.strip()[-400:]}]
+    if not mok:
+        return [{"name": name, "ok": False, "info": "traversal model does not build: " + mmsg.strip()[:400]}]
+    cases_path = os.path.join(ctx.rundir, "sel_cases.txt")
+    model_path = os.path.join(ctx.rundir, "sel_model.txt")
+    exe = os.path.join(core.BIN, "c10sel")
+    n = SEL_COUNTS.get(ctx.tier, 1200)
+    rc, out = core.sh([exe, "-seed", str(ctx.seed), "-tier", ctx.tier, "-n", str(n), "-out", cases_path],
+                      timeout=3600, cwd=core.ROOT)
+    if rc != 0:
+        return [{"name": name, "ok": False, "info": "c10sel failed rc=%d: %s" % (rc, out.strip()[-400:]),
+                 "failures": [{"case": ["c10sel", out.strip()[-600:]], "classes": ["selector_harness_crash"],
+                               "verdict": "fail:selector_harness_crash"}]}]
+    drv = os.path.join(core.BUILD, "ml", trav.CLUSTER, trav.DRIVER)
+    with open(cases_path, "rb") as fi, open(model_path, "wb") as fo:
+        try:
+            p = subprocess.run([drv], stdin=fi, stdout=fo, stderr=subprocess.PIPE, timeout=3600)
+        except subprocess.TimeoutExpired:
+            return [{"name": name, "ok": False, "info": "traversal model driver timeout"}]
+    if p.returncode != 0:
+        return [{"name": name, "ok": False, "info": "traversal model driver failed: " + p.stderr.decode("utf8", "replace")[-400:]}]
+    cases = {}
+    order = []
+    for line in open(cases_path, errors="replace"):
+        fs = line.rstrip("\n").split("\t")
+        if len(fs) >= 6:
+            cases[fs[0]] = fs
+            order.append(fs[0])
+    model = {}
+    for line in open(model_path, errors="replace"):
+        fs = line.rstrip("\n").split("\t")
+        if len(fs) >= 3:
+            model[fs[0]] = fs
+    fails = []
+    agree = skipped = 0
+    dist = {}
+    for cid in order:
+        fs = cases[cid]
+        obs = fs[-1]
+        k = obs.split("|")[0].split(":")[0]
+        dist[k] = dist.get(k, 0) + 1
+        m = model.get(cid)
+        short = [f if len(f) <= 600 else f[:600] + "...(%d chars)" % len(f) for f in fs]
+        if m is None:
+            fails.append({"case": short, "classes": ["selector_model_missing"], "verdict": "fail:selector_model_missing"})
+            continue
+        mo, verdict = m[1], m[2]
+        if verdict.startswith("fail:"):
+            fails.append({"case": short, "classes": verdict[5:].split(","), "verdict": verdict, "model": mo})
+        elif verdict == "skip":
+            skipped += 1
+        elif mo != obs:
+            fails.append({"case": short, "classes": ["selector_model_mismatch"], "verdict": "fail:selector_model_mismatch",
+                          "model": mo})
+        else:
+            agree += 1
+    known = {k["class"] for k in ctx.known if k.get("status") == "known"}
+    unknown = [f for f in fails if [c for c in f["classes"] if c not in known]]
+    # unknown failures first: the runner reports the first violation
+    fails = unknown + [f for f in fails if f not in unknown]
+    return [{"name": name + " (%d declarations)" % len(order),
+             "ok": bool(order) and not unknown,
+             "info": {"cases": len(order), "agree": agree, "skipped": skipped, "failures": len(fails), "by_compile_class": dist},
+             "failures": fails[:60]}]
